@@ -120,6 +120,7 @@ pub fn run(h: &mut H, input: &str) {
                 h.op_loop(wi, q, mac, &decide, default, None, None);
             }
             "clone" => h.op_clone(t[1].parse().unwrap(), t[2].parse().unwrap(), None),
+            "clone_from" => h.op_clone_from(t[1].parse().unwrap(), t[2].parse().unwrap()),
             "drop" => h.op_drop(t[1].parse().unwrap(), None),
             "clear_events" => h.op_clear_events(t[1].parse().unwrap(), t.get(2).and_then(|x| x.parse::<usize>().ok())),
             other => panic!("harness: unknown script op {}", other),
